@@ -1013,6 +1013,31 @@ func ruleEmptySubscriberHeapIsDropped(c *eng.Ctx) {
 		if q.Find() != nil {
 			deletes = true
 		}
+		// ... and nothing on the way from the removal to the end of the visit skips the emptiness test: whether the leaving
+		// member held partitions of the stream decides the rebalance, not the drop
+		notEmpty := eng.EdgesWhere(g, func(a eng.AtomView) bool {
+			isLen := func(v ssa.Value) bool {
+				call := eng.AsCall(eng.Strip(v))
+				if call == nil {
+					return false
+				}
+				if b, ok := call.Call.Value.(*ssa.Builtin); ok && b.Name() == "len" {
+					return true
+				}
+				return strings.HasSuffix(eng.CalleeRef(&call.Call), "consumerHeap.Len")
+			}
+			return a.RelHolds(isLen, eng.IntConst(0), eng.NE|eng.GT)
+		})
+		var rem []ssa.Instruction
+		for _, r := range eng.CallsIn(g, "container/heap.Remove") {
+			rem = append(rem, r.(ssa.Instruction))
+		}
+		if len(rem) > 0 {
+			q2 := &eng.PathQuery{Fn: g, FromAfter: rem, Target: isReturn, CutEdges: append(append([]eng.Edge{}, empty...), notEmpty...)}
+			if w := q2.Find(); w != nil {
+				c.Violate("after a member left a stream's heap the heap is tested for emptiness", c.Pos(rem[0]), "removeConsumer can finish with a stream after the heap removal without testing whether the heap is now empty ("+w.String()+"): an early return for `held no partition of this stream` skips the drop, the empty heap stays — it is not part of a snapshot — and a later deletion of the stream moves the group epoch on this server only")
+			}
+		}
 	}
 	c.Check(deletes, "a stream's subscriber entry goes when its last subscriber leaves", p.Pos(fn.Pos()), "len(*subscribers) == 0 → delete(c.subscribers, stream)", "removeConsumer leaves an empty subscriber heap behind when the last subscriber of a stream leaves: the entry is not part of a snapshot, so a later deletion of that stream advances the group epoch on a server that saw the member leave and not on one restored from a snapshot — the replicas disagree on the epoch FetchConsumerGroupAssignments checks")
 }
